@@ -3,7 +3,7 @@ import ast
 import math
 import re
 
-from ..src import walk, calls, call_name, dotted, const, loc, unparse, norm, AnchorError, ExtractError, last_attr
+from ..src import walk, calls, call_name, dotted, const, loc, unparse, norm, AnchorError, ExtractError, last_attr, parent
 from ..peval import Evaluator, Obj, Unknown, Raised
 from ..cfg import CFG
 from ..symx import SymExec, Opaque
@@ -192,7 +192,20 @@ def run(repo, chk):
     if not wl:
         raise AnchorError("presolve scheduler: no while loop on the rule clock")
     # abstract first iteration: first_step -> sim_time = 0, no presolve controls pending (cnt = 0 = len), rule_timestep > 0
-    for s in init:
+    def first_step_guard(s):
+        """True / False if the assignment sits in the then / else branch of `if first_step`, None if unguarded."""
+        q = s
+        while q is not None and q is not rs:
+            par = parent(q)
+            if isinstance(par, ast.If) and unparse(par.test) == "first_step":
+                return q in par.body
+            if isinstance(par, ast.If) and unparse(par.test) == "not first_step":
+                return q not in par.body
+            q = par
+        return None
+    first_inits = [s for s in init if first_step_guard(s) is not False]
+    chk.expect(bool(first_inits), "R-C04-4", "run_sim initialises the rule clock on a first step", loc(rs))
+    for s in first_inits:
         v = const(s.value)
         enters = None
         if v is not None:
@@ -299,6 +312,7 @@ WITNESSES = [
          new="        elif self._relation is Comparison.ge and cur_time >= self._threshold and prev_time < self._threshold:\n            self._backtrack = int(self._threshold - cur_time)", rule="R-C04-1"),
     dict(name="priority-descending", file=CORE, old="        postsolve_controls_to_run.sort(key=lambda i: i[0]._priority)", new="        postsolve_controls_to_run.sort(key=lambda i: i[0]._priority, reverse=True)", rule="R-C04-3"),
     dict(name="merged-sort", file=CORE, old="        presolve_controls_to_run.sort(key=lambda i: i[0]._priority)  # sort them by priority\n", new="", rule="R-C04-3"),
+    dict(name="rule-clock-starts-at-zero", file=CORE, old="            self._rule_iter = 1\n", new="            self._rule_iter = 0\n", rule="R-C04-4"),
     dict(name="rule-increment-missing", file=CORE, old="                    self._wn.sim_time = self._rule_iter * self._wn.options.time.rule_timestep\n                    self._rule_iter += 1\n                    if not first_step:", new="                    self._wn.sim_time = self._rule_iter * self._wn.options.time.rule_timestep\n                    if not first_step:", rule="R-C04-4"),
     dict(name="time-controls-postsolve", file=CTRL, old="        elif isinstance(condition, (TimeOfDayCondition, SimTimeCondition)):\n            self._control_type = _ControlType.presolve", new="        elif isinstance(condition, (TimeOfDayCondition, SimTimeCondition)):\n            self._control_type = _ControlType.postsolve", rule="R-C04-5"),
     dict(name="first-step-guard-removed", file=CORE, old="        if first_step:  # we don't want to backtrack if the sim time is 0\n            presolve_controls_to_run = [(c, 0) for c, b in presolve_controls_to_run]\n", new="", rule="R-C04-6"),
